@@ -1,0 +1,560 @@
+//! C02 adapter: a real `NoiseSocket` pair (obtained from a real in-memory `handshake()`) behind the
+//! line protocol, with a scripted carrier for the writer -> reader direction.
+//!
+//! The writer side `A` is the dialer, the reader side `B` the listener. During the handshake the
+//! pipe is a plain duplex; afterwards everything `A` writes goes through the scripted carrier:
+//!
+//! * the inner `poll_write` of `A` consults `wscript` (`<k>` accept at most k bytes, `p` Pending,
+//!   `z` Ok(0), `x` Err(BrokenPipe); empty script: accept everything); accepted bytes are appended
+//!   to the wire, which is kept as a sequence of ciphertext frames (segments);
+//! * `carrier deliver` moves bytes from the wire to the inbox of `B`;
+//! * the inner `poll_read` of `B` consults `rscript` (`<k>` at most k bytes, `p` Pending, `e` Ok(0),
+//!   `x` Err(ConnectionReset); empty script: everything available, Pending if the inbox is empty,
+//!   Ok(0) if it is empty and the carrier was closed);
+//! * `tamper` edits complete, not yet (partially) delivered frames on the wire.
+//!
+//! The plaintext written is a fixed function of the stream position, so a read reports the
+//! position of the bytes it returned instead of the bytes.
+//!
+//! After a read (write/flush) returned an error the reader (writer) is treated as fused: further
+//! reads (writes) answer `fused` without touching the socket, like every caller of an
+//! `AsyncRead`/`AsyncWrite` that gives up on the first I/O error.
+
+use super::{handshake, HandshakeTransport, NoiseSocket};
+use crate::{config::Role, crypto::ed25519::Keypair, verif::VerifBox};
+
+use futures::io::{AsyncRead, AsyncWrite};
+
+use std::{
+    cell::RefCell,
+    collections::VecDeque,
+    io,
+    pin::Pin,
+    rc::Rc,
+    task::{Context, Poll, Waker},
+};
+
+/// Plaintext byte at stream position `i`.
+fn pat(i: usize) -> u8 {
+    ((i as u32).wrapping_mul(0x9E37_79B1) >> 24) as u8
+}
+
+#[derive(Clone, Copy)]
+enum WAns {
+    Acc(usize),
+    Pend,
+    Zero,
+    Err,
+}
+
+#[derive(Clone, Copy)]
+enum RAns {
+    Chunk(usize),
+    Pend,
+    Eof,
+    Err,
+}
+
+#[derive(Clone)]
+struct Seg {
+    bytes: VecDeque<u8>,
+    complete: bool,
+    started: bool,
+    /// Plaintext position of the first byte of this frame and its plaintext length (as written).
+    pstart: usize,
+    plen: usize,
+    /// First byte removed by `tamper trunc`: the byte delivered right after this frame must
+    /// differ from it (otherwise, with probability 1/256, nothing would have been modified).
+    guard: Option<u8>,
+}
+
+#[derive(Default)]
+struct Shared {
+    scripted: bool,
+    to_a: VecDeque<u8>,
+    to_b: VecDeque<u8>,
+    waker_a: Option<Waker>,
+    waker_b: Option<Waker>,
+    wscript: VecDeque<WAns>,
+    rscript: VecDeque<RAns>,
+    segs: VecDeque<Seg>,
+    inbox: VecDeque<u8>,
+    closed: bool,
+    hdr: Vec<u8>,
+    body_need: usize,
+    next_pstart: usize,
+    guard: Option<u8>,
+}
+
+impl Shared {
+    /// Byte accepted from the writer: append to the wire, tracking frame boundaries.
+    fn push_wire(&mut self, b: u8) {
+        if self.segs.back().map_or(true, |s| s.complete) {
+            self.segs.push_back(Seg {
+                bytes: VecDeque::new(),
+                complete: false,
+                started: false,
+                pstart: self.next_pstart,
+                plen: 0,
+                guard: None,
+            });
+        }
+        let seg = self.segs.back_mut().expect("segment");
+        seg.bytes.push_back(b);
+        let mut done = false;
+        if self.hdr.len() < 2 {
+            self.hdr.push(b);
+            if self.hdr.len() == 2 {
+                self.body_need = ((self.hdr[0] as usize) << 8) | self.hdr[1] as usize;
+                done = self.body_need == 0;
+            }
+        } else {
+            self.body_need -= 1;
+            done = self.body_need == 0;
+        }
+        if done {
+            // frame = 2 length bytes + plaintext + 16-byte tag
+            seg.plen = (self.hdr[0] as usize * 256 + self.hdr[1] as usize).saturating_sub(16);
+            seg.complete = true;
+            self.next_pstart += seg.plen;
+            self.hdr.clear();
+        }
+    }
+
+    fn deliver(&mut self, mut k: usize) -> usize {
+        let mut moved = 0;
+        while k > 0 {
+            let Some(seg) = self.segs.front_mut() else { break };
+            match seg.bytes.pop_front() {
+                Some(mut b) => {
+                    seg.started = true;
+                    if let Some(g) = self.guard.take() {
+                        if b == g {
+                            b ^= 1;
+                        }
+                    }
+                    self.inbox.push_back(b);
+                    moved += 1;
+                    k -= 1;
+                }
+                None => {
+                    if seg.complete {
+                        if seg.guard.is_some() {
+                            self.guard = seg.guard;
+                        }
+                        self.segs.pop_front();
+                    } else {
+                        break;
+                    }
+                }
+            }
+        }
+        // drop exhausted complete segments at the front
+        while self.segs.front().map_or(false, |s| s.complete && s.bytes.is_empty()) {
+            if let Some(s) = self.segs.pop_front() {
+                if s.guard.is_some() {
+                    self.guard = s.guard;
+                }
+            }
+        }
+        moved
+    }
+
+    /// Indices (into `segs`) of the frames a tamper operation may address.
+    fn tamperable(&self) -> Vec<usize> {
+        (0..self.segs.len())
+            .filter(|i| self.segs[*i].complete && !self.segs[*i].started)
+            .collect()
+    }
+}
+
+#[derive(Clone, Copy, PartialEq)]
+enum Side {
+    A,
+    B,
+}
+
+struct End {
+    shared: Rc<RefCell<Shared>>,
+    side: Side,
+}
+
+impl AsyncRead for End {
+    fn poll_read(
+        self: Pin<&mut Self>,
+        cx: &mut Context<'_>,
+        buf: &mut [u8],
+    ) -> Poll<io::Result<usize>> {
+        let mut sh = self.shared.borrow_mut();
+        if !sh.scripted {
+            let q = if self.side == Side::A { &mut sh.to_a } else { &mut sh.to_b };
+            if q.is_empty() {
+                let w = Some(cx.waker().clone());
+                if self.side == Side::A {
+                    sh.waker_a = w;
+                } else {
+                    sh.waker_b = w;
+                }
+                return Poll::Pending;
+            }
+            let n = buf.len().min(q.len());
+            for slot in buf.iter_mut().take(n) {
+                *slot = q.pop_front().expect("byte");
+            }
+            return Poll::Ready(Ok(n));
+        }
+        if self.side == Side::A {
+            return Poll::Pending;
+        }
+        let cap = match sh.rscript.pop_front() {
+            None => usize::MAX,
+            Some(RAns::Chunk(k)) => k,
+            Some(RAns::Pend) => return Poll::Pending,
+            Some(RAns::Eof) => return Poll::Ready(Ok(0)),
+            Some(RAns::Err) => return Poll::Ready(Err(io::ErrorKind::ConnectionReset.into())),
+        };
+        if sh.inbox.is_empty() {
+            return match sh.closed {
+                true => Poll::Ready(Ok(0)),
+                false => Poll::Pending,
+            };
+        }
+        let n = buf.len().min(sh.inbox.len()).min(cap);
+        for slot in buf.iter_mut().take(n) {
+            *slot = sh.inbox.pop_front().expect("byte");
+        }
+        Poll::Ready(Ok(n))
+    }
+}
+
+impl AsyncWrite for End {
+    fn poll_write(
+        self: Pin<&mut Self>,
+        _cx: &mut Context<'_>,
+        buf: &[u8],
+    ) -> Poll<io::Result<usize>> {
+        let mut sh = self.shared.borrow_mut();
+        if !sh.scripted {
+            let (q_is_b, waker) = match self.side {
+                Side::A => (true, sh.waker_b.take()),
+                Side::B => (false, sh.waker_a.take()),
+            };
+            if q_is_b {
+                sh.to_b.extend(buf.iter().copied());
+            } else {
+                sh.to_a.extend(buf.iter().copied());
+            }
+            if let Some(w) = waker {
+                w.wake();
+            }
+            return Poll::Ready(Ok(buf.len()));
+        }
+        if self.side == Side::B {
+            return Poll::Ready(Ok(buf.len()));
+        }
+        let n = match sh.wscript.pop_front() {
+            None => buf.len(),
+            Some(WAns::Acc(k)) => k.min(buf.len()),
+            Some(WAns::Pend) => return Poll::Pending,
+            Some(WAns::Zero) => return Poll::Ready(Ok(0)),
+            Some(WAns::Err) => return Poll::Ready(Err(io::ErrorKind::BrokenPipe.into())),
+        };
+        for b in &buf[..n] {
+            sh.push_wire(*b);
+        }
+        Poll::Ready(Ok(n))
+    }
+
+    fn poll_flush(self: Pin<&mut Self>, _cx: &mut Context<'_>) -> Poll<io::Result<()>> {
+        Poll::Ready(Ok(()))
+    }
+
+    fn poll_close(self: Pin<&mut Self>, _cx: &mut Context<'_>) -> Poll<io::Result<()>> {
+        Poll::Ready(Ok(()))
+    }
+}
+
+struct Pair {
+    a: NoiseSocket<End>,
+    b: NoiseSocket<End>,
+    shared: Rc<RefCell<Shared>>,
+    wpos: usize,
+    rpos: usize,
+    read_fused: bool,
+    write_fused: bool,
+}
+
+pub struct NoiseBox {
+    rt: tokio::runtime::Runtime,
+    pair: Option<Pair>,
+}
+
+fn class(e: &io::Error) -> &'static str {
+    match e.kind() {
+        io::ErrorKind::UnexpectedEof => "eof",
+        io::ErrorKind::InvalidData => "invalid-data",
+        io::ErrorKind::PermissionDenied => "permission-denied",
+        io::ErrorKind::ConnectionReset => "reset",
+        io::ErrorKind::BrokenPipe => "broken-pipe",
+        io::ErrorKind::WriteZero => "write-zero",
+        _ => "other",
+    }
+}
+
+impl NoiseBox {
+    pub fn new() -> Self {
+        Self {
+            rt: tokio::runtime::Builder::new_current_thread()
+                .enable_time()
+                .build()
+                .expect("runtime"),
+            pair: None,
+        }
+    }
+
+    fn connect(&mut self, f: usize, w: usize) -> Result<(), String> {
+        let shared = Rc::new(RefCell::new(Shared::default()));
+        let end_a = End {
+            shared: shared.clone(),
+            side: Side::A,
+        };
+        let end_b = End {
+            shared: shared.clone(),
+            side: Side::B,
+        };
+        let key = |x: u8| -> Keypair {
+            let secret = crate::crypto::ed25519::SecretKey::try_from_bytes([x; 32]).expect("key");
+            Keypair::from(secret)
+        };
+        let (k1, k2) = (key(1), key(2));
+        let timeout = std::time::Duration::from_secs(20);
+        let (r1, r2) = self.rt.block_on(async {
+            tokio::join!(
+                handshake(end_a, &k1, Role::Dialer, f, w, timeout, HandshakeTransport::Tcp),
+                handshake(end_b, &k2, Role::Listener, f, w, timeout, HandshakeTransport::Tcp),
+            )
+        });
+        let (a, pa) = r1.map_err(|e| format!("handshake-a {e:?}"))?;
+        let (b, pb) = r2.map_err(|e| format!("handshake-b {e:?}"))?;
+        if pa != k2.public().to_peer_id() || pb != k1.public().to_peer_id() {
+            return Err("handshake-peer".into());
+        }
+        {
+            let mut sh = shared.borrow_mut();
+            if !sh.to_a.is_empty() || !sh.to_b.is_empty() {
+                return Err("handshake-leftover".into());
+            }
+            sh.scripted = true;
+        }
+        self.pair = Some(Pair {
+            a,
+            b,
+            shared,
+            wpos: 0,
+            rpos: 0,
+            read_fused: false,
+            write_fused: false,
+        });
+        Ok(())
+    }
+}
+
+fn num(s: &str) -> Option<usize> {
+    s.parse::<usize>().ok()
+}
+
+impl VerifBox for NoiseBox {
+    fn step(&mut self, line: &str) -> String {
+        let t: Vec<&str> = line.split_whitespace().collect();
+        if let ["cfg", f, w] = t.as_slice() {
+            let (Some(f), Some(w)) = (num(f), num(w)) else { return "bad-op".into() };
+            if f > 8 || w > 8 {
+                return "bad-op".into();
+            }
+            return match self.connect(f, w) {
+                Ok(()) => "ok".into(),
+                Err(e) => format!("err {e}"),
+            };
+        }
+        if self.pair.is_none() {
+            if let Err(e) = self.connect(super::MAX_READ_AHEAD_FACTOR, super::MAX_WRITE_BUFFER_SIZE)
+            {
+                return format!("err {e}");
+            }
+        }
+        let p = self.pair.as_mut().expect("pair");
+        let waker = futures::task::noop_waker();
+        let mut cx = Context::from_waker(&waker);
+        match t.as_slice() {
+            ["write", n] => {
+                let Some(n) = num(n) else { return "bad-op".into() };
+                if n > (1 << 22) {
+                    return "bad-op".into();
+                }
+                if p.write_fused {
+                    return "fused".into();
+                }
+                let data: Vec<u8> = (p.wpos..p.wpos + n).map(pat).collect();
+                match Pin::new(&mut p.a).poll_write(&mut cx, &data) {
+                    Poll::Pending => "pending".into(),
+                    Poll::Ready(Ok(k)) => {
+                        p.wpos += k;
+                        format!("ok {k}")
+                    }
+                    Poll::Ready(Err(e)) => {
+                        p.write_fused = true;
+                        format!("err {}", class(&e))
+                    }
+                }
+            }
+            ["flush"] => {
+                if p.write_fused {
+                    return "fused".into();
+                }
+                match Pin::new(&mut p.a).poll_flush(&mut cx) {
+                    Poll::Pending => "pending".into(),
+                    Poll::Ready(Ok(())) => "ok".into(),
+                    Poll::Ready(Err(e)) => {
+                        p.write_fused = true;
+                        format!("err {}", class(&e))
+                    }
+                }
+            }
+            ["read", k] => {
+                let Some(k) = num(k) else { return "bad-op".into() };
+                if k > (1 << 22) {
+                    return "bad-op".into();
+                }
+                if p.read_fused {
+                    return "fused".into();
+                }
+                let mut buf = vec![0xEEu8; k];
+                match Pin::new(&mut p.b).poll_read(&mut cx, &mut buf) {
+                    Poll::Pending => "pending".into(),
+                    Poll::Ready(Ok(n)) => {
+                        if n > k {
+                            return format!("ok {n} overrun");
+                        }
+                        let bad = (0..n).find(|j| buf[*j] != pat(p.rpos + j));
+                        let at = p.rpos;
+                        p.rpos += n;
+                        match bad {
+                            None => format!("ok {n} @{at}"),
+                            Some(j) => format!("ok {n} corrupt {j}"),
+                        }
+                    }
+                    Poll::Ready(Err(e)) => {
+                        p.read_fused = true;
+                        format!("err {}", class(&e))
+                    }
+                }
+            }
+            ["carrier", "deliver", k] => {
+                let mut sh = p.shared.borrow_mut();
+                let k = match *k {
+                    "all" => usize::MAX,
+                    k => match num(k) {
+                        Some(k) => k,
+                        None => return "bad-op".into(),
+                    },
+                };
+                format!("ok {}", sh.deliver(k))
+            }
+            ["carrier", "clear"] => {
+                let mut sh = p.shared.borrow_mut();
+                sh.rscript.clear();
+                sh.wscript.clear();
+                "ok".into()
+            }
+            ["carrier", "close"] => {
+                p.shared.borrow_mut().closed = true;
+                "ok".into()
+            }
+            ["carrier", "rscript", rest @ ..] => {
+                let mut v = Vec::new();
+                for r in rest {
+                    v.push(match *r {
+                        "p" => RAns::Pend,
+                        "e" => RAns::Eof,
+                        "x" => RAns::Err,
+                        k => match num(k) {
+                            Some(k) if k > 0 => RAns::Chunk(k),
+                            _ => return "bad-op".into(),
+                        },
+                    });
+                }
+                p.shared.borrow_mut().rscript.extend(v);
+                "ok".into()
+            }
+            ["carrier", "wscript", rest @ ..] => {
+                let mut v = Vec::new();
+                for r in rest {
+                    v.push(match *r {
+                        "p" => WAns::Pend,
+                        "z" => WAns::Zero,
+                        "x" => WAns::Err,
+                        k => match num(k) {
+                            Some(k) if k > 0 => WAns::Acc(k),
+                            _ => return "bad-op".into(),
+                        },
+                    });
+                }
+                p.shared.borrow_mut().wscript.extend(v);
+                "ok".into()
+            }
+            ["tamper", kind, rest @ ..] => {
+                let args: Option<Vec<usize>> = rest.iter().map(|s| num(s)).collect();
+                let Some(args) = args else { return "bad-op".into() };
+                let mut sh = p.shared.borrow_mut();
+                let idx = sh.tamperable();
+                let Some(&i) = args.first() else { return "bad-op".into() };
+                let Some(&si) = idx.get(i) else {
+                    return match (*kind, args.len()) {
+                        ("flip", 3) | ("trunc", 2) | ("dup", 1) | ("drop", 1) | ("swap", 1) =>
+                            "none".into(),
+                        _ => "bad-op".into(),
+                    };
+                };
+                let done = format!("ok @{} +{}", sh.segs[si].pstart, sh.segs[si].plen);
+                match (*kind, args.as_slice()) {
+                    ("flip", [_, off, mask]) => {
+                        let len = sh.segs[si].bytes.len();
+                        let mask = (1 + ((*mask).max(1) - 1) % 255) as u8;
+                        sh.segs[si].bytes[*off % len] ^= mask;
+                        done
+                    }
+                    ("trunc", [_, cut]) => {
+                        let len = sh.segs[si].bytes.len();
+                        let cut = 1 + ((*cut).max(1) - 1) % len;
+                        if sh.segs[si].guard.is_none() {
+                            sh.segs[si].guard = Some(sh.segs[si].bytes[len - cut]);
+                        }
+                        sh.segs[si].bytes.truncate(len - cut);
+                        if sh.segs[si].bytes.is_empty() {
+                            sh.segs.remove(si);
+                        }
+                        done
+                    }
+                    ("dup", [_]) => {
+                        let c = sh.segs[si].clone();
+                        sh.segs.insert(si + 1, c);
+                        done
+                    }
+                    ("drop", [_]) => {
+                        sh.segs.remove(si);
+                        done
+                    }
+                    ("swap", [_]) => match idx.get(i + 1) {
+                        Some(&sj) => {
+                            sh.segs.swap(si, sj);
+                            done
+                        }
+                        None => "none".into(),
+                    },
+                    _ => "bad-op".into(),
+                }
+            }
+            _ => "bad-op".into(),
+        }
+    }
+}
